@@ -190,9 +190,10 @@ struct Emit<'a, W: Write> {
 }
 impl<'a, W: Write> Emit<'a, W> {
     fn req(&mut self, req: &str) {
-        let i = self.idx;
         self.idx += 1;
-        if i % self.nshards != self.shard {
+        // shard by a hash of the request text: equal requests always land in the same shard, so the
+        // driver's per-shard de-duplication is a global one
+        if crate::rng::fnv1a(req) % self.nshards != self.shard {
             return;
         }
         let a = answer(req);
@@ -348,12 +349,9 @@ pub fn run<W: Write>(group: &str, thorough: bool, seed: u64, shard: u64, nshards
                     }
                 }
                 if thorough {
-                    let mut ops: Vec<u32> = vec![0, 1, 2, 3, 7, 8, 9, 10, 15, 16, 17, 0x7E, 0x7F, 0x80, 0x81, 0xFE, 0xFF];
-                    while ops.len() < 64 {
-                        ops.push(rng.below(256) as u32);
-                    }
+                    // exhaustive: all 2^16 AX x all 256 operands
                     for ax in 0..=0xFFFFu32 {
-                        for &v in &ops {
+                        for v in 0..=255u32 {
                             e.req(&format!("u8 {} {} {} 0 {}", name, 0xF000u16, ax, v));
                         }
                     }
@@ -397,9 +395,6 @@ pub fn run<W: Write>(group: &str, thorough: bool, seed: u64, shard: u64, nshards
             }
             for name in ["aaa", "aad", "aam", "aas", "daa", "das", "cbw", "cwd"] {
                 for ax in 0..=0xFFFFu32 {
-                    if !thorough && !(ax < 0x400 || ax % 7 == (seed % 7) as u32 || ax >= 0xFC00) {
-                        continue;
-                    }
                     for fl in [0x0000u16, 0x0001, 0x0010, 0x0011, 0xFFFF, 0xFFEE] {
                         e.req(&format!("s {} {} {} {}", name, fl, ax, rng.next() as u16));
                     }
